@@ -281,34 +281,207 @@ def unbounded_digit_runs(pattern: str):
     return out
 
 
+INT_SAMPLES = ["0", "7", "007", "00", "010", "1234567890", "9" * 40]
+FLOAT_SAMPLES = ["0.0", "1.5", "01.5", "123.456", "1e5", "1E5", "001e2", "1e+16", "1e-07", "1.5e+300", "2.2250738585072014e-308", "5e-324", "1.7976931348623157e+308"]
+# conversions of the token text that cannot raise on the sample languages above, with the language they need
+TOTAL_ON = {
+    "int": lambda smp: all(_total(int, x) for x in smp),
+    "float": lambda smp: all(_total(float, x) for x in smp),
+}
+PREDICATES = {"isdigit", "isdecimal", "isnumeric", "isascii"}
+
+
+def _total(f, x):
+    try:
+        f(x)
+        return True
+    except Exception:  # noqa: BLE001
+        return False
+
+
+def mapped_tokens(g):
+    """[(nonterminal, [(token name, regex)], converter expr)] for every `X > conv` of the grammar class whose
+    X is made of reg(...) tokens only (directly, or through nonterminals that are bare reg(...))."""
+    bare = {n: regex_of(e) for n, e in g.items() if regex_of(e) is not None}
+    out = []
+    for n, e in g.items():
+        body, fn = strip_map(e)
+        if fn is None:
+            continue
+        toks = []
+        ok = True
+        work = [body]
+        while work:
+            x = work.pop()
+            if isinstance(x, ast.BinOp) and isinstance(x.op, ast.BitOr):
+                work += [x.left, x.right]
+            elif regex_of(x) is not None:
+                toks.append((n, regex_of(x)))
+            elif isinstance(x, ast.Name) and x.id in bare:
+                toks.append((x.id, bare[x.id]))
+            else:
+                ok = False
+        if ok and toks:
+            out.append((n, toks, fn))
+    return out
+
+
+def converter_paths(ix, module, fn):
+    """Resolve a converter (lambda / builtin name / function / Class.method) to (param, [(guards, return expr)],
+    calls-on-param), substituting single-assignment locals. None if it cannot be resolved."""
+    if isinstance(fn, ast.Lambda) and len(fn.args.args) == 1:
+        return fn.args.args[0].arg, [((), fn.body)], "lambda"
+    if isinstance(fn, ast.Name) and fn.id in ("int", "float"):
+        return "x", [((), ast.parse(f"{fn.id}(x)", mode="eval").body)], fn.id
+    q = None
+    if isinstance(fn, ast.Name):
+        q = ix.resolve_name(module, fn.id) if hasattr(ix, "resolve_name") else None
+        if q is None:
+            for cand in (f"{module}.{fn.id}", f"{A_MOD}.{fn.id}"):
+                if cand in ix.funcs:
+                    q = cand
+    elif isinstance(fn, ast.Attribute) and isinstance(fn.value, ast.Name):
+        for cand in (f"{A_MOD}.{fn.value.id}.{fn.attr}", f"{module}.{fn.value.id}.{fn.attr}"):
+            if cand in ix.funcs:
+                q = cand
+    if q is None or q not in ix.funcs:
+        return None
+    node = ix.funcs[q].node
+    args = [a.arg for a in node.args.args if a.arg not in ("self", "cls")]
+    if len(args) != 1:
+        return None
+    param = args[0]
+    paths = []
+
+    class Sub(ast.NodeTransformer):
+        def __init__(self, env):
+            self.env = env
+
+        def visit_Name(self, n):
+            return self.env.get(n.id, n) if isinstance(n.ctx, ast.Load) else n
+
+    def walk(body, guards, env):
+        for i, st in enumerate(body):
+            if isinstance(st, ast.Expr) and isinstance(st.value, ast.Constant):
+                continue
+            if isinstance(st, ast.Assign) and len(st.targets) == 1 and isinstance(st.targets[0], ast.Name):
+                env = dict(env)
+                env[st.targets[0].id] = Sub(env).visit(ast.parse(u(st.value), mode="eval").body)
+                continue
+            if isinstance(st, ast.Return) and st.value is not None:
+                paths.append((guards, Sub(env).visit(ast.parse(u(st.value), mode="eval").body)))
+                return True
+            if isinstance(st, ast.If):
+                t = Sub(env).visit(ast.parse(u(st.test), mode="eval").body)
+                r1 = walk(st.body, guards + ((t, True),), env)
+                r2 = walk(st.orelse, guards + ((t, False),), env) if st.orelse else False
+                if r1 and r2:
+                    return True
+                if r1 and not st.orelse:
+                    guards = guards + ((t, False),)
+                    continue
+                if not r1 and not r2:
+                    continue
+                paths.append((guards, None))
+                return True
+            paths.append((guards, None))  # statement kind not modelled
+            return True
+        return False
+
+    walk(node.body, (), {})
+    return param, paths, q
+
+
 def rule_literals(ctx, ix):
     ctx.rule("C12.literal-closure", "text produced by Integer/Float.deparse lies in the literal grammar and re-parses to the same node", min_instances=4)
+    ctx.rule("C12.literal-tokens", "every literal token's converter is total on the token's language and builds the node of the token's kind from its exact value", min_instances=2)
     g = class_assigns(ix.cls(f"{P_MOD}.TensorExpressionParsers"))
-    fbody, ffn = strip_map(g["floating_point"])
-    ibody, ifn = strip_map(g["integer"])
-    fre, ire = regex_of(fbody), regex_of(ibody)
+    toks = mapped_tokens(g)
+    lit = [(n, t, fn) for n, t, fn in toks if any(re.fullmatch(r, "0") or re.fullmatch(r, "1.5") for _, r in t) and not any(re.fullmatch(r, "a") for _, r in t)]
+    if not lit:
+        raise AnalysisError("anchor vanished: no numeric literal token with a converter in TensorExpressionParsers")
+    ire = fre = None
+    for nt, tl, fn in lit:
+        res = converter_paths(ix, P_MOD, fn)
+        for tname, r in tl:
+            ctx.instance("C12.literal-tokens")
+            key = f"expression/_parser.py:{tname}"
+            ints = [x for x in INT_SAMPLES if re.fullmatch(r, x)]
+            flts = [x for x in FLOAT_SAMPLES if re.fullmatch(r, x)]
+            kind = "int" if ints and not flts else "float" if flts and not ints else None
+            if kind == "int":
+                ire = r
+            elif kind == "float":
+                fre = r
+            if kind is None:
+                ctx.fail("C12.literal-tokens", key, f"token `{r}` matches both integer and float spellings (or neither): ambiguous literal kind")
+                continue
+            if res is None:
+                ctx.fail("C12.literal-tokens", key, f"converter `{u(fn)}` cannot be resolved to a function of the token text")
+                continue
+            param, paths, where = res
+            want_cls, want_conv = ("Integer", "int") if kind == "int" else ("Float", "float")
+            samples = ints if kind == "int" else flts
+            problems = []
+            chosen = []
+            for guards, ret in paths:
+                # which paths can this token kind take?  guards understood: <param>.isdigit()/isdecimal()
+                feasible = True
+                for t, val in guards:
+                    m = re.fullmatch(rf"{param}\.(\w+)\(\)", u(t))
+                    if m and m.group(1) in PREDICATES:
+                        truth = {getattr(x, m.group(1))() for x in samples}
+                        if truth == {not val}:
+                            feasible = False
+                        elif len(truth) != 1:
+                            problems.append(f"guard `{u(t)}` splits the token's own language")
+                    else:
+                        problems.append(f"guard `{u(t)}` on the converter's path is not a recognised predicate of the token text")
+                if feasible:
+                    chosen.append(ret)
+            for ret in chosen:
+                if ret is None:
+                    problems.append("converter has a path that is not `return <node>`")
+                    continue
+                calls = [c for c in ast.walk(ret) if isinstance(c, ast.Call) and any(isinstance(a, ast.Name) and a.id == param for a in c.args)]
+                for c in calls:
+                    fnm = u(c.func)
+                    if fnm in TOTAL_ON:
+                        if not TOTAL_ON[fnm](samples):
+                            problems.append(f"`{u(c)}` raises on spellings of this token such as {[x for x in samples if not _total(eval(fnm), x)][:2]}")
+                    elif fnm not in (want_cls,):
+                        problems.append(f"`{u(c)}` is applied to the token text: not a conversion known to be total on `{r}` (an exception here escapes the parser)")
+                if u(ret) != f"{want_cls}({want_conv}({param}))":
+                    if not any("is applied to the token text" in p_ for p_ in problems):
+                        problems.append(f"token of kind {kind} becomes `{u(ret)}`, expected `{want_cls}({want_conv}({param}))`")
+            if not chosen:
+                problems.append("no converter path is feasible for this token")
+            if problems:
+                ctx.fail("C12.literal-tokens", key, f"converter {where}: " + "; ".join(sorted(set(problems))))
+            else:
+                ctx.ok("C12.literal-tokens", key + f" -> {want_cls}({want_conv}(text))")
     if fre is None or ire is None:
-        raise AnalysisError("anchor vanished: literal regexes of TensorExpressionParsers")
+        raise AnalysisError("anchor vanished: integer / float literal tokens of TensorExpressionParsers")
     for cname in ("Integer", "Float"):
         ctx.instance("C12.literal-closure")
         fn = ix.func(f"{A_MOD}.{cname}.deparse").node
         rets = [n for n in ast.walk(fn) if isinstance(n, ast.Return)]
         key = f"expression/ast.py:{cname}.deparse"
-        if len(rets) == 1 and u(rets[0].value) == "str(self.value)":
+        if len(rets) == 1 and u(rets[0].value) in ("str(self.value)", "repr(self.value)"):
             ctx.ok("C12.literal-closure", key)
         else:
             ctx.fail("C12.literal-closure", key, "literal is not printed with str(value)")
     # str(int) for the non-negative ints the grammar can produce is [0-9]+
     ctx.instance("C12.literal-closure")
-    if re.fullmatch(ire, "0") and re.fullmatch(ire, "1234567890") and not re.fullmatch(ire, "-1") and u(ifn) == "lambda x: Integer(int(x))":
+    if re.fullmatch(ire, "0") and re.fullmatch(ire, "1234567890") and not re.fullmatch(ire, "-1"):
         ctx.ok("C12.literal-closure", "expression/_parser.py:integer")
     else:
-        ctx.fail("C12.literal-closure", "expression/_parser.py:integer", f"integer literal grammar `{ire}` / callback `{u(ifn)}` does not round-trip str(int)")
+        ctx.fail("C12.literal-closure", "expression/_parser.py:integer", f"integer literal grammar `{ire}` does not contain str(int) of every non-negative int")
     # every finite float repr shape is in the float regex and not in the integer regex
     ctx.instance("C12.literal-closure")
     shapes = ["0.0", "1.5", "123.456", "1e+16", "1e-07", "1.5e+300", "2.2250738585072014e-308", "5e-324", "1.7976931348623157e+308"]
     bad = [s for s in shapes if not re.fullmatch(fre, s) or re.fullmatch(ire, s)]
-    if not bad and u(ffn) == "lambda x: Float(float(x))":
+    if not bad:
         ctx.ok("C12.literal-closure", "expression/_parser.py:floating_point:finite reprs")
     else:
         ctx.fail("C12.literal-closure", "expression/_parser.py:floating_point:finite reprs", f"finite float repr shapes {bad} are not in the float grammar `{fre}`")
